@@ -1,4 +1,5 @@
 import UtilModel.Core.LTSHash
+import UtilModel.Core.LTSComplete
 import UtilModel.Treiber.Props
 /-!
 # Treiber — end-to-end transfer
@@ -13,5 +14,72 @@ theorem C12_accepted_lifo (cap fuel : Nat) (h : List Treiber.Obs)
     (ha : Treiber.model.acceptsH cap fuel h = true) : Treiber.monC12.accepts h = true :=
   acceptedH_satisfies Treiber.model (fun h => Treiber.monC12.accepts h = true)
     Treiber.C12_obs_lifo cap fuel h ha
+
+end UtilModel
+
+/-! ## A REJECT is about the model — through the reduced search
+
+`Treiber.model.cands` is deliberately **not** complete in the sense of `OLTS.Complete`: while some
+call is between its load and its CAS only CASes are tried (`Treiber.cands`), so e.g. in the state
+`th = [pushCas 1 none, pushLoad 2]` the enabled internal event `load 1` is not a candidate
+(`not_complete_lifo`). The REJECT verdict is nevertheless a statement about the full model: the
+checker is exactly the checker of the model *restricted* to the candidate events
+(`OLTS.restrict`, `accRunH_restrict`), that restricted model is `Complete`
+(`complete_lifo_reduced`), and by `Treiber.reduced_search_covers_model` every observable trace of the
+full model is the trace of a run of the restricted one. -/
+namespace UtilModel
+
+theorem Treiber.Ev.obs_ev (e : Treiber.Ev) (o : Treiber.Obs) (h : e.obs = some o) : o.ev = e := by
+  cases e <;> simp [Treiber.Ev.obs] at h <;> subst h <;> rfl
+
+/-- `evsOf` of the lifo model is complete -/
+theorem evs_complete_lifo (s : Treiber.St) (e : Treiber.Ev) (s' : Treiber.St) (o : Treiber.Obs)
+    (_ : Treiber.model.step s e = some s') (ho : Treiber.model.obs e = some o) :
+    e ∈ Treiber.model.evsOf s o := by
+  simp [Treiber.model, Treiber.Ev.obs_ev e o ho]
+
+/-- the *unreduced* candidate list (`allCands`) is complete … -/
+theorem complete_lifo_allCands : ({ Treiber.model with cands := Treiber.allCands } : OLTS _ _ _).Complete :=
+  ⟨fun s e s' hs ho => Treiber.allCands_complete s s' e hs ho, evs_complete_lifo⟩
+
+/-- … but the reduced list the driver uses is not (by design): with a Push between load and CAS,
+the load of another call is enabled and not tried -/
+theorem not_complete_lifo : ¬ Treiber.model.Complete := by
+  intro h
+  have := h.cands { heap := [], top := none, th := [.pushCas 1 none, .pushLoad 2] } (.load 1) _ rfl rfl
+  revert this
+  decide
+
+/-- the model restricted to the reduced candidates is complete -/
+theorem complete_lifo_reduced : Treiber.model.restrict.Complete :=
+  Treiber.model.restrict_complete evs_complete_lifo
+
+/-- a run through candidates only is a run of the restricted model -/
+theorem Treiber.viaCands_restrict_run (s s' : Treiber.St) (es : List Treiber.Ev)
+    (hr : Treiber.model.run s es = some s') (hv : Treiber.ViaCands s es) :
+    Treiber.model.restrict.run s es = some s' := by
+  induction es generalizing s with
+  | nil => simpa [OLTS.run] using hr
+  | cons e es ih =>
+    obtain ⟨s1, hs, hc, hv'⟩ := hv
+    have hs' : Treiber.model.step s e = some s1 := hs
+    simp only [OLTS.run, hs', Option.bind_some] at hr
+    have := Treiber.model.restrict_step_of s s1 e hs' hc
+    simp only [OLTS.run, this, Option.bind_some]
+    exact ih s1 hr hv'
+
+/-- **A REJECT of the lifo correspondence is about the (unreduced) model**: when the driver's run
+fails at an observable without having hit the exploration bounds, no run of the Treiber model — with
+arbitrary interleavings of loads and CASes, not only those the reduced search tries — projects to
+the recorded history. -/
+theorem reject_sound_lifo (cap fuel : Nat) (h : List Treiber.Obs) (i : Nat)
+    (hfail : (Treiber.model.accRunH cap fuel [Treiber.model.init] h 0 false 1).failedAt = some i)
+    (htr : (Treiber.model.accRunH cap fuel [Treiber.model.init] h 0 false 1).truncated = false) :
+    ¬ ∃ es s, Treiber.model.run Treiber.model.init es = some s ∧ es.filterMap Treiber.model.obs = h := by
+  rintro ⟨es, s, hr, hp⟩
+  obtain ⟨es', s', hr', hp', hv⟩ := Treiber.reduced_search_covers_model es s hr
+  rw [← Treiber.model.accRunH_restrict] at hfail htr
+  exact rejectH_sound Treiber.model.restrict complete_lifo_reduced cap fuel h i hfail htr
+    ⟨es', s', Treiber.viaCands_restrict_run _ _ _ hr' hv, by rw [← hp]; exact hp'⟩
 
 end UtilModel
